@@ -57,12 +57,14 @@ class Grid:
 
 def write_tif(
     path, grid: Grid, array=None, dtype='float32', nodata=float('nan'), mask=None, alpha=None, count=None,
-    band_tags=None, descriptions=None, colorinterp=None, tags=None, south_up=False, crs=CRS3857, **profile
+    band_tags=None, descriptions=None, colorinterp=None, tags=None, south_up=False, crs=CRS3857, internal_mask=True, **profile
 ):
     """
     Write `array` (bands, h, w) or (h, w) on `grid`.
       mask   : bool (h, w) written as an internal mask band (GDAL_TIFF_INTERNAL_MASK) - use with nodata=None
-      alpha  : bool (h, w) appended as an alpha band (honoured by GDAL as dataset mask for 1/3 uint8|uint16 bands)
+      alpha  : bool (h, w) appended as an alpha band (honoured by GDAL as dataset mask for 1/3 uint8|uint16 bands); an integer
+               array gives the alpha values themselves (semi-transparent pixels 1..254 are valid pixels)
+      internal_mask: False writes the mask as a side-car file `<name>.msk` instead of inside the TIFF
       south_up: store the rows bottom-to-top with a positive `e` transform term (same ground content)
     """
     path = pathlib.Path(path)
@@ -85,12 +87,17 @@ def write_tif(
         nodata=nodata
     )
     prof.update(profile)
-    with rio.Env(GDAL_TIFF_INTERNAL_MASK=True, GTIFF_FORCE_RGBA=False):
+    for side in (pathlib.Path(str(path) + '.msk'), pathlib.Path(str(path) + '.aux.xml')):
+        if side.exists():
+            side.unlink()      # side-car files of whatever the path held before
+    with rio.Env(GDAL_TIFF_INTERNAL_MASK=bool(internal_mask), GTIFF_FORCE_RGBA=False):
         with rio.open(path, 'w', **prof) as ds:
             ds.write(array.astype(dtype), indexes=list(range(1, nb + 1)))
             if alpha is not None:
                 info_max = np.iinfo(dtype).max if np.issubdtype(np.dtype(dtype), np.integer) else 1
-                ds.write((alpha * info_max).astype(dtype), indexes=total)
+                # a bool array: fully opaque where True; an integer array: the alpha values themselves (any non-zero = valid)
+                av = (alpha * info_max) if np.asarray(alpha).dtype == bool else np.asarray(alpha)
+                ds.write(av.astype(dtype), indexes=total)
                 ci = list(colorinterp or ([ColorInterp.gray] * nb if nb != 3 else
                                           [ColorInterp.red, ColorInterp.green, ColorInterp.blue]))
                 ds.colorinterp = ci[:nb] + [ColorInterp.alpha]
